@@ -124,8 +124,15 @@ func readAbsErr(file []byte, ts spec.TypeSpec, typ reflect.Type, failAt *int, cb
 	if h < 0 {
 		h = -h
 	}
-	kind := []int{0, 0, 1, 2, 0, 4, 101, 4195}[h%8]
-	err := avro.ReadFile(makeReader(kind, file), reflect.New(typ).Elem().Interface(), func(val unsafe.Pointer, rb *avro.ResourceBank) error {
+	kind := []int{0, 0, 1, 2, 0, 4, 101, 4195, 50, 51}[h%10]
+	out := reflect.New(typ).Elem().Interface()
+	if (h/10)%3 == 0 {
+		// by pointer, into a struct the caller has used before
+		p := reflect.New(typ)
+		junkFill(p.Elem(), 3)
+		out = p.Interface()
+	}
+	err := avro.ReadFile(makeReader(kind, file), out, func(val unsafe.Pointer, rb *avro.ResourceBank) error {
 		got = append(got, spec.Abs(ts, false, reflect.NewAt(typ, val).Elem()))
 		if failAt != nil && len(got)-1 == *failAt {
 			return cbErr
